@@ -47,6 +47,39 @@ example :
     r.1 = none ∧ r.2.provideCache.length = 0 ∧ r.2.provideRefs.length = 0 := by
   decide
 
+/-! ### faults -/
+
+/-- **Fault injection means what it says**: the `i`-th user callback of a render raises the chosen
+class and no other callback does; either way the callback is recorded, so the positions of later
+callbacks do not shift (shown for the hooks; `get_context_data` additionally counts instances). -/
+theorem fault_at_index_only (env : Env) (w : World) (id i c : Nat) (h : env.raiseAt = some (i, c)) :
+    (tick env (.before id)).run.run w =
+      (if w.events.length = i then .error (.user c) else .ok (), { w with events := w.events ++ [.before id] }) := by
+  unfold tick
+  simp only [h]
+  by_cases hi : w.events.length = i <;>
+    simp [hi, bind, ExceptT.bind, ExceptT.mk, ExceptT.bindCont, ExceptT.run, StateT.bind, StateT.run, get, getThe,
+      MonadStateOf.get, StateT.get, liftM, monadLift, MonadLift.monadLift, ExceptT.lift, StateT.map, set, StateT.set,
+      pure, ExceptT.pure, StateT.pure, throw, throwThe, MonadExceptOf.throw, Functor.map, StateT.lift] <;> rfl
+
+theorem no_fault_without_request (env : Env) (w : World) (id : Nat) (h : env.raiseAt = none) :
+    (tick env (.after id)).run.run w = (.ok (), { w with events := w.events ++ [.after id] }) := by
+  unfold tick
+  simp only [h]
+  simp [bind, ExceptT.bind, ExceptT.mk, ExceptT.bindCont, ExceptT.run, StateT.bind, StateT.run, get, getThe,
+    MonadStateOf.get, StateT.get, liftM, monadLift, MonadLift.monadLift, ExceptT.lift, StateT.map, set, StateT.set,
+    pure, ExceptT.pure, StateT.pure, Functor.map, StateT.lift] <;> rfl
+
+/-- **A bookkeeping step that raises keeps the world it reached**: the registries after a failure are
+the ones at the raise point (this is what makes "what is left behind" observable in the model). -/
+theorem bookkeeping_error_keeps_world (f : WStep) (w : World) :
+    (liftW f).run.run w = ((match (f w).1 with | some e => .error e | none => .ok ()), (f w).2) := by
+  unfold liftW
+  cases hf : (f w).1 <;>
+    simp [hf, bind, ExceptT.bind, ExceptT.mk, ExceptT.bindCont, ExceptT.run, StateT.bind, StateT.run, get, getThe,
+      MonadStateOf.get, StateT.get, liftM, monadLift, MonadLift.monadLift, ExceptT.lift, StateT.map, set, StateT.set,
+      pure, ExceptT.pure, StateT.pure, throw, throwThe, MonadExceptOf.throw, Functor.map, StateT.lift] <;> rfl
+
 /-- The property at full strength for the model of the code: whatever callback raises, every
 registry of the world is as before the render.  OPEN; false on the unchanged tree. -/
 def C06_full : Prop :=
